@@ -95,7 +95,13 @@ func (p *c03) gen(seed uint64, idx int) c03Case {
 		}
 		return "{" + strings.Join(parts, ", ") + "}"
 	}
+	// a key written twice: the later pair wins, every time
+	dup := func() string {
+		k1, k2 := all[r.Intn(len(all))], all[r.Intn(len(all))]
+		return fmt.Sprintf("{'%s': 1, '%s': 2, '%s': 3, '%s': 4, '%s': 5}", k1, k2, k1, k2, k1)
+	}
 	frags := []string{
+		"{{ " + dup() + "|json_encode }}", "{% set h = " + dup() + " %}{{ h|json_encode }}{% for k, v in h %}{{ k }}{{ v }}{% endfor %}", "{% include 'inc' with " + dup() + " %}", "{{ " + dup() + "|keys|join(',') }}{{ " + dup() + "|first }}",
 		"{{ " + ihash(r.Range(2, 6)) + "|merge(" + ihash(r.Range(2, 6)) + ")|json_encode }}",
 		"{% for k, v in " + ihash(r.Range(2, 6)) + "|merge(" + ihash(r.Range(2, 6)) + ") %}{{ k }}={{ v }};{% endfor %}",
 		"{{ ik|merge(ik2)|json_encode }}", "{% for k, v in ik|merge(ik2) %}{{ k }}={{ v }};{% endfor %}", "{{ " + ihash(r.Range(2, 6)) + "|merge(ik3)|json_encode }}", "{{ ik3|merge(" + ihash(r.Range(3, 6)) + ")|keys|join(',') }}",
@@ -111,6 +117,7 @@ func (p *c03) gen(seed uint64, idx int) c03Case {
 		"{% set h = " + hash(r.Range(3, 8)) + " %}{{ h|keys|join }}{{ h|first }}{% for k, v in h %}{{ k }}{% endfor %}{{ h|json_encode }}",
 		"{{ " + hash(r.Range(3, 8)) + "|merge(m)|first }}", "{{ m|default('d')|first }}", "{{ max(m) }}", "{{ m|reverse }}", "{{ m|sort|join(',') }}", "{% if 'alpha' in m %}y{% else %}n{% endif %}",
 		"{{ p }}", "{{ ps|join(',') }}", "{% for x in ps %}{{ x }}{% endfor %}", "{{ st.P }}|{{ st.S }}", "{{ st.Name }}", "{{ pp }}", "{{ pst.Name }}", "{{ lp|first }}", "{{ mp|first }}{% for k, v in mp %}{{ v }}{% endfor %}",
+		"{% include 'inc3' with {'a1': a2, 'a2': a3, 'a3': a1, 'n1': n2 + 1, 'n2': 10} %}", "{% include 'inc3' with {'a3': a2 ~ a1, 'a2': a1, 'a1': 'x', 'n2': n1, 'n1': n2} only %}",
 		"{% include 'inc' with m %}", "{% include 'inc' with " + hash(r.Range(3, 6)) + " only %}",
 	}
 	// date format
@@ -209,12 +216,12 @@ func (c c03Case) buildCtx(variant uint64) map[string]interface{} {
 	return map[string]interface{}{
 		"m": m, "m2": m2, "tm": tm, "tm2": tm2, "ti": ti, "ik": ik, "ik2": ik2, "ik3": ik3, "ik4": ik4, "nested": nested,
 		"p": pi, "ps": ps, "pp": ppi, "st": c03Struct{Name: "sv", P: pi, S: s}, "pst": &c03Struct{Name: "psv"}, "lp": []interface{}{pi}, "mp": mp,
-		"d": time.Date(2024, 3, 5, 14, 7, 9, 0, time.UTC), "ts": 1709647629,
+		"d": time.Date(2024, 3, 5, 14, 7, 9, 0, time.UTC), "ts": 1709647629, "a1": "one", "a2": "two", "a3": "three", "n1": 1, "n2": 2,
 	}
 }
 
 func (c c03Case) render(variant uint64) string {
-	res := renderFresh(map[string]string{"main": c.src, "inc": "{% for k, v in _context|default({}) %}{% endfor %}[{{ alpha }}{{ beta }}{{ gamma }}{{ delta }}{{ eps }}]"}, "main", c.buildCtx(variant), nil)
+	res := renderFresh(map[string]string{"main": c.src, "inc3": "[{{ a1 }},{{ a2 }},{{ a3 }},{{ n1 }},{{ n2 }}]", "inc": "{% for k, v in _context|default({}) %}{% endfor %}[{{ alpha }}{{ beta }}{{ gamma }}{{ delta }}{{ eps }}]"}, "main", c.buildCtx(variant), nil)
 	if res.Panicked {
 		return "PANIC@" + res.Site + ":" + res.PanicVal
 	}
